@@ -45,7 +45,7 @@ func c08wrap(c *Ctx) {
 	m := newClipModel(c)
 	it := m.it
 	it.symbolic = true
-	it.maxDepth = 8
+	it.maxDepth = 48
 	found := 0
 	for _, f := range c.P.RepoFuncs() {
 		if c.P.DeclPkg(f) != p || !reach[f] {
@@ -57,6 +57,7 @@ func c08wrap(c *Ctx) {
 		}
 		eval := func(x float64) (float64, string) {
 			it.valuation = map[string]float64{"p1": x}
+			symResetEval()
 			c.Evals(1)
 			res, why := it.Call(f, nil, []oval{oSym{polyVar("p1")}}, 0)
 			if why != "" {
